@@ -323,6 +323,13 @@ class Interp:
         lib = self.world.library
         if dotted in lib:
             return lib[dotted]
+        if mref.dotted == 'numpy.random' and name[:1].islower():
+            # any other module-level numpy.random function draws from (and advances) the hidden global state
+            def _global(ctx_, *a, **k):
+                ctx_.events.append(('global-rng', dotted))
+                ctx_.assumptions.add('lib[abstract]:%s (global random state)' % dotted)
+                return ctx_.fresh_int('global_rng_int') if 'int' in name else ctx_.fresh_real('global_rng')
+            return Builtin(dotted, _global)
         if any(k.startswith(dotted + '.') for k in lib):
             return ModuleRef(dotted)
         raise Unsupported('library name %s not modelled' % dotted)
